@@ -114,6 +114,8 @@ def _rename(a, b):
 class FakeMmap:
     def __init__(self, name, n):
         self.name = name
+        if n == 0 and not bool(CUR.files[getattr(name, 'name', name)].slen() > 0):
+            raise ValueError('cannot mmap an empty file')          # as the OS does for length 0 = whole file
 
     def size(self):
         return CUR.files[self.name].slen()
@@ -230,6 +232,12 @@ class _Path:
         return n in CUR.files
 
     isfile = exists
+
+    @staticmethod
+    def getsize(n):
+        if n not in CUR.files:
+            raise OSError(2, 'No such file or directory', n)
+        return CUR.files[n].slen()
 
 
 class _Os:
